@@ -12,7 +12,7 @@ fail=0; n=0
 while IFS=$'\t' read -r patch prop want; do
   [ -z "$patch" ] && continue
   case "$patch" in \#*) continue;; esac
-  if [ -n "$PAT" ] && ! echo "$patch $prop" | grep -q -- "$PAT"; then continue; fi
+  if [ -n "$PAT" ] && ! printf "%s\t%s\t" "$patch" "$prop" | grep -q -P -- "$PAT"; then continue; fi
   n=$((n+1))
   rm -rf "$SCR/repo"; mkdir -p "$SCR/repo"
   (cd /repo && git ls-files -z | xargs -0 cp --parents -t "$SCR/repo") 2>/dev/null
